@@ -335,6 +335,15 @@ PS = "lerax/policy/sac/mlp.py"
 
 ENTRIES += [
     # ---------------------------------------------------------------- C15
+    M("C15-normal-swap", "C15", "C15.5", ("lerax/distribution/normal.py", "distributions.Normal(loc=loc, scale=scale)", "distributions.Normal(loc=scale, scale=loc)")),
+    M("C15-normal-scale-squared", "C15", "C15.5", ("lerax/distribution/normal.py", "distributions.Normal(loc=loc, scale=scale)", "distributions.Normal(loc=loc, scale=scale**2)")),
+    M("C15-mvn-scale-from-loc", "C15", "C15.5", ("lerax/distribution/multivariate_normal.py", "            loc=loc, scale_diag=scale_diag\n", "            loc=loc, scale_diag=loc\n")),
+    M("C15-cat-logits-probs", "C15", "C15.5", (DC, "distributions.Categorical(logits=logits, probs=probs)", "distributions.Categorical(logits=probs, probs=logits)")),
+    M("C15-bern-probs-dropped", "C15", "C15.5", (DBE, "distributions.Bernoulli(logits=logits, probs=probs)", "distributions.Bernoulli(logits=logits, probs=None)")),
+    M("C15-sn-loc-scale-swapped", "C15", "C15.5", (DSN, "normal = distributions.Normal(loc=loc, scale=scale)", "normal = distributions.Normal(loc=scale, scale=loc)")),
+    M("C15-sn-accessor-scale", "C15", "C15.5", (DSN, "        return self.distribution.distribution.scale", "        return self.distribution.distribution.loc")),
+    M("C15-mc-logits-from-probs", "C15", "C15.5", (DMC, "distributions.Categorical(logits=piece) for piece in pieces", "distributions.Categorical(probs=piece) for piece in pieces")),
+    V("C15-v-normal-positional-kw", "C15", ("lerax/distribution/normal.py", "distributions.Normal(loc=loc, scale=scale)", "distributions.Normal(scale=scale, loc=loc)")),
     M("C15-prob-logprob", "C15", "C15.1", (DB, "        return self.distribution.prob(value)", "        return self.distribution.log_prob(value)")),
     M("C15-mode-mean", "C15", "C15.1", (DB, "    def mode(self) -> SampleType:\n        return self.distribution.mode()\n\n    def sample_and_log_prob(", "    def mode(self) -> SampleType:\n        return self.distribution.mean()\n\n    def sample_and_log_prob(")),
     M("C15-mc-mean-components", "C15", "C15.2", (DMC, "        return jnp.sum(jnp.stack(logps, axis=-1), axis=-1)", "        return jnp.mean(jnp.stack(logps, axis=-1), axis=-1)")),
